@@ -467,7 +467,11 @@ class SpecEvalMixin:
             if name == "prev":
                 if env.prev_st is None:
                     raise RuntimeError("prev() outside a loop step clause")
-                return self._sp(SpecEnv(env.prev_st, env.prev_names, env.old_st, env.old_names), n.args[0])
+                pnames = dict(env.prev_names)
+                for k_, v_ in env.names.items():
+                    if k_ not in pnames:
+                        pnames[k_] = v_          # macro parameters of the current env are visible inside prev()
+                return self._sp(SpecEnv(env.prev_st, pnames, env.old_st, env.old_names, env.prev_st, pnames), n.args[0])
             if name == "implies":
                 a = self.truthy(st, self._sp(env, n.args[0]))
                 b = self.truthy(st, self._sp(env, n.args[1]))
@@ -549,7 +553,7 @@ class SpecEvalMixin:
                 params, body = self.reg.macros[name]
                 args = [self._sp(env, a) for a in n.args]
                 sub = SpecEnv(env.st, dict(zip(params, args)), env.old_st,
-                              dict(zip(params, args)))
+                              dict(zip(params, args)), env.prev_st, env.prev_names)
                 # macros see old() through the caller's old state but with their own parameters
                 return self.spec_eval(sub, body)
             if name in self.reg.specfns:
